@@ -19,13 +19,16 @@ RULE = ('for every generator configuration of a catalogue (all carrier classes, 
         'overwriting every array it receives; the fragment functions envelope / cos2envelope / sam_envelope / _sam_envelope / '
         'square_wave called positionally and by keyword, on- and off-grid, samples="auto", NumPy-typed offsets, offsets far past the '
         'end, fragments at ==/-1/+1 of every segment boundary, and called twice with the caller writing into the first (memoised) '
-        'result; tone / sam_tone fragments and the seconds-based `duration` variant, the noise functions and ramped_tone against '
+        'result; sequences of memoised calls whose arguments collide under a wrong cache key, each judged against the model and the '
+        'un-memoised function; tone / sam_tone fragments and the seconds-based `duration` variant, the noise functions and ramped_tone against '
         'their factory twins; WavSequenceFactory (float / int rate, resampled files, both normalisations). The model prints a symbolic recipe per sample; the harness evaluates it with one-shot elementary '
         'functions and compares bit-exactly (FIR noise 1e-12). Non-trivial: at least two chunks and a non-carrier node or a noise/filter carrier.')
 TRUSTED = ['harness/stimcore.py (factory builder, recipe evaluator using one-shot carrier / scipy window / one-shot filter, decoder)',
            'per-index carriers (cos of an index), RandomState streams and scipy lfilter are oracles: their own chunk-invariance is '
            'what the oracle() tests directly (chunked == one-shot), not something the model proves']
-ASSUMPTIONS = ['times are passed as k/fs; the effective sample counts are computed with the code\'s own int(round(t*fs))',
+ASSUMPTIONS = ['between every two operations the harness reseeds and draws from NumPy\'s global generator and draws from a second noise '
+               'generator of the same class and seed',
+               'times are passed as k/fs; the effective sample counts are computed with the code\'s own int(round(t*fs))',
                'square-wave envelope periods: float arithmetic of fs/fm is modelled as exact rational arithmetic of that double',
                'WavSequenceFactory is a stream carrier (its queue logic is C02\'s subject): the harness sorts its wav files by name '
                'after construction because the class takes them in directory-listing order',
@@ -116,6 +119,9 @@ def cases(tier, rng):
             if rng.random() < 0.3:
                 c['np'] = True
             yield c
+    # memoised fragment functions: call sequences whose arguments collide under a wrong cache key
+    for fs in FS:
+        yield from sc.memo_cases(fs, rng, 30 if quick else 400, ['envelope', 'cos2envelope', 'sam_envelope', '_sam_envelope'])
     # one-shot functions and their factory twins: tone / sam_tone fragments (offset, samples) and the seconds-based
     # `duration` variant; the noise functions; ramped_tone
     for fs in FS:
@@ -231,7 +237,8 @@ def _fn_call(case):
     else:
         sel = [dict(duration=case['dur'] / fs)]
     out = []
-    for kw in sel:
+    for i, kw in enumerate(sel):
+        sc.disturb_global_rng(i)
         if t == 'tone':
             a = stim.tone(fs, cfg['f'], cfg['level'], **sc._kw(cfg, {'phase': 'phase', 'pol': 'polarity'}), **kw)
         elif t == 'samtone':
@@ -291,6 +298,8 @@ def impl(case):
         return _twice(case, lambda: _sam_call(case, case['o'], case['n']))
     if k == 'sqwave':
         return _twice(case, lambda: _sq_call(case, case['o'], case['n']))
+    if k == 'memo':
+        return sc.memo_impl(case)
     if k == 'fn':
         try:
             return _fn_call(case)
@@ -329,6 +338,8 @@ def expr(case, res):
                 break
             cs.append(o[1])
         return f"run_gen {g} {sc.coq_ops(ops)} ++ spec_ok_Z {g} {zlist(cs)}"
+    if k == 'memo':
+        return sc.memo_expr(case) + ' ++ [1]'
     if k == 'envelope':
         elb, dur, rise = _frag_params(case)
         a = f"{zlit(elb)} {zlit(dur)} {zlit(rise)} {zlit(case['o'])} {zlit(_env_n(case))}"
@@ -378,6 +389,8 @@ def agree(case, res, mo):
             dec = sc.decode(mo)
             return None if dec and dec[0][0] == 'raise' else 'the function raised ValueError, the model of its factory twin does not'
         return sc.compare(case['cfg'], case['fs'], reg, ops, res, mo)
+    if k == 'memo':
+        return sc.memo_agree(case, res, mo)
     if k == 'envelope':
         if mo[0] == 2:
             return None if res[0] == 'raise' else 'model raises ValueError, implementation returned an envelope'
@@ -400,6 +413,8 @@ def agree(case, res, mo):
 
 def nontrivial(case, res):
     k = case['k']
+    if k == 'memo':
+        return True
     if k == 'fn':
         return case['mode'] == 'dur' or (case['n'] > 0 and case['o'] > 0)
     if k != 'gen':
@@ -462,6 +477,8 @@ def oracle(case, res):
                 return None
             return 'the function raised ValueError for parameters its factory twin accepts'
         return _gen_oracle(case['cfg'], fs, _fn_ops(case), res)
+    if k == 'memo':
+        return sc.memo_oracle(case, res)
     if res[0] == 'raise':
         return None
     if len(res) > 2 and res[2] != res[1]:
